@@ -142,8 +142,9 @@ def gen(rng, tier):
         cs = [rng.choice([1, 1, 2, 3]) for _ in range(n)]
         if rng.random() < 0.3:
             cs[rng.randrange(n)] = 0
-        if sum(cs) > 0:
-            yield Case("rnd", ["support"] + base + ["rarefy", "%d:%s" % (rng.randint(1, sum(cs)), ",".join(map(str, cs))), K], True, "support-rarefy")
+        if sum(cs) > 1:
+            # Rarefy refuses nb >= sum of the counts
+            yield Case("rnd", ["support"] + base + ["rarefy", "%d:%s" % (rng.randint(1, sum(cs) - 1), ",".join(map(str, cs))), K], True, "support-rarefy")
         if L >= 5:
             for what in ("rogue", "shufflesites", "addgaps", "mutate"):
                 yield Case("rnd", ["support"] + base + [what, rng.choice(["1/2", "3/4", "1"]), K], True, "support-" + what)
